@@ -42,11 +42,16 @@ func (f *Func) Inlined(keep ...string) *Func {
 	}
 	in := &inliner{prog: f.Prog, info: f.Pkg.TypesInfo, root: f, keep: keep}
 	body := in.block(f.Decl.Body, []*types.Func{f.Obj}, 0)
-	if in.count == 0 {
+	propagated := false
+	if os.Getenv("PDFVERIF_FIELDPROP") != "" {
+		// experimental (off): see FieldAliases for what the rules use instead
+		body, propagated = propagateFieldReads(f.Pkg.TypesInfo, f, body)
+	}
+	if in.count == 0 && !propagated {
 		f.inlinedBy[key] = f
 		return f
 	}
-	if os.Getenv("PDFVERIF_NOSROA") == "" {
+	if in.count > 0 && os.Getenv("PDFVERIF_NOSROA") == "" {
 		body = sroa(f.Pkg.TypesInfo, f, body)
 	}
 	decl := *f.Decl
@@ -1227,4 +1232,316 @@ func sroaZero(info *types.Info, t types.Type, pos token.Pos) ast.Expr {
 		}
 	}
 	return nil
+}
+
+// propagateFieldReads replaces the uses of a local that caches a field of the
+// receiver or of a parameter (P := sec.P; n := sec.keyBytes; key := sec.key)
+// by the field expression itself, when the local is defined exactly once,
+// never assigned again, its address is not taken, and no field of that name
+// is assigned anywhere in the function.  This is the normal form the rules
+// are written against; the defining statement stays where it is.
+func propagateFieldReads(info *types.Info, root *Func, body *ast.BlockStmt) (*ast.BlockStmt, bool) {
+	owner := map[types.Object]bool{}
+	add := func(fl *ast.FieldList) {
+		if fl == nil {
+			return
+		}
+		for _, f := range fl.List {
+			for _, n := range f.Names {
+				if obj := info.ObjectOf(n); obj != nil {
+					owner[obj] = true
+				}
+			}
+		}
+	}
+	add(root.Decl.Recv)
+	add(root.Decl.Type.Params)
+	strip := func(e ast.Expr) ast.Expr {
+		for {
+			e = ast.Unparen(e)
+			call, ok := e.(*ast.CallExpr)
+			if !ok || len(call.Args) != 1 {
+				return e
+			}
+			if tv, ok := info.Types[call.Fun]; !ok || !tv.IsType() {
+				return e
+			}
+			e = call.Args[0]
+		}
+	}
+	// field chain rooted at a parameter or the receiver: the names of the fields
+	fieldChain := func(e ast.Expr) ([]string, bool) {
+		var names []string
+		for {
+			sel, ok := ast.Unparen(e).(*ast.SelectorExpr)
+			if !ok {
+				break
+			}
+			s := info.Selections[sel]
+			if s == nil || s.Kind() != types.FieldVal {
+				return nil, false
+			}
+			names = append(names, sel.Sel.Name)
+			e = sel.X
+		}
+		id, ok := ast.Unparen(e).(*ast.Ident)
+		if !ok || len(names) == 0 || !owner[info.ObjectOf(id)] {
+			return nil, false
+		}
+		return names, true
+	}
+	defs := map[types.Object]ast.Expr{}
+	writes := map[types.Object]int{}
+	fieldWritten := map[string]bool{}
+	ownerWritten := false
+	ast.Inspect(body, func(n ast.Node) bool {
+		switch x := n.(type) {
+		case *ast.FuncLit:
+			// locals used inside closures are left alone
+			ast.Inspect(x, func(m ast.Node) bool {
+				if id, ok := m.(*ast.Ident); ok {
+					if obj := info.ObjectOf(id); obj != nil {
+						writes[obj] += 2
+					}
+				}
+				return true
+			})
+			return false
+		case *ast.AssignStmt:
+			for i, l := range x.Lhs {
+				switch lx := ast.Unparen(l).(type) {
+				case *ast.Ident:
+					obj := info.ObjectOf(lx)
+					if obj == nil {
+						continue
+					}
+					writes[obj]++
+					if owner[obj] {
+						ownerWritten = true
+					}
+					if x.Tok == token.DEFINE && len(x.Lhs) == len(x.Rhs) && info.Defs[lx] != nil {
+						if _, ok := fieldChain(strip(x.Rhs[i])); ok {
+							defs[obj] = x.Rhs[i]
+						}
+					}
+				case *ast.SelectorExpr:
+					fieldWritten[lx.Sel.Name] = true
+				case *ast.IndexExpr, *ast.StarExpr:
+					// writes through the cached value do not change which field it names
+				}
+			}
+		case *ast.IncDecStmt:
+			if id, ok := ast.Unparen(x.X).(*ast.Ident); ok {
+				if obj := info.ObjectOf(id); obj != nil {
+					writes[obj] += 2
+				}
+			}
+			if sel, ok := ast.Unparen(x.X).(*ast.SelectorExpr); ok {
+				fieldWritten[sel.Sel.Name] = true
+			}
+		case *ast.UnaryExpr:
+			if x.Op == token.AND {
+				if id, ok := ast.Unparen(x.X).(*ast.Ident); ok {
+					if obj := info.ObjectOf(id); obj != nil {
+						writes[obj] += 2
+					}
+				}
+				if sel, ok := ast.Unparen(x.X).(*ast.SelectorExpr); ok {
+					fieldWritten[sel.Sel.Name] = true
+				}
+			}
+		case *ast.RangeStmt:
+			for _, e := range []ast.Expr{x.Key, x.Value} {
+				if id, ok := e.(*ast.Ident); ok {
+					if obj := info.ObjectOf(id); obj != nil {
+						writes[obj] += 2
+					}
+				}
+			}
+		}
+		return true
+	})
+	if ownerWritten {
+		return body, false
+	}
+	subst := map[types.Object]ast.Expr{}
+	for obj, rhs := range defs {
+		if writes[obj] != 1 {
+			continue
+		}
+		names, _ := fieldChain(strip(rhs))
+		bad := false
+		for _, n := range names {
+			if fieldWritten[n] {
+				bad = true
+			}
+		}
+		// only values: a cached slice, map or pointer is the same storage, a cached
+		// number or string the same value; struct copies are left alone
+		switch obj.Type().Underlying().(type) {
+		case *types.Struct, *types.Array:
+			bad = true
+		}
+		if !bad {
+			subst[obj] = rhs
+		}
+	}
+	if len(subst) == 0 {
+		return body, false
+	}
+	c := &cloner{info: info}
+	c.rewrite = func(n ast.Node) ast.Node {
+		id, ok := n.(*ast.Ident)
+		if !ok {
+			return nil
+		}
+		obj := info.Uses[id]
+		if obj == nil {
+			return nil
+		}
+		rhs, ok := subst[obj]
+		if !ok {
+			return nil
+		}
+		return (&cloner{info: info}).node(rhs)
+	}
+	return c.node(body).(*ast.BlockStmt), true
+}
+
+// FieldAliases returns the locals of f that cache a field of the receiver or
+// of a parameter (P := sec.P), defined once and never reassigned, with the
+// expression they stand for.  Rules that compare expressions use it to read
+// such a local as the field it names.
+func (f *Func) FieldAliases() map[types.Object]ast.Expr {
+	info := f.Info()
+	owner := map[types.Object]bool{}
+	add := func(fl *ast.FieldList) {
+		if fl == nil {
+			return
+		}
+		for _, fd := range fl.List {
+			for _, n := range fd.Names {
+				if obj := info.ObjectOf(n); obj != nil {
+					owner[obj] = true
+				}
+			}
+		}
+	}
+	add(f.Decl.Recv)
+	add(f.Decl.Type.Params)
+	out := map[types.Object]ast.Expr{}
+	if f.Decl.Body == nil {
+		return out
+	}
+	writes := map[types.Object]int{}
+	fieldWritten := map[string]bool{}
+	cand := map[types.Object]ast.Expr{}
+	strip := func(e ast.Expr) ast.Expr {
+		for {
+			e = ast.Unparen(e)
+			call, ok := e.(*ast.CallExpr)
+			if !ok || len(call.Args) != 1 {
+				return e
+			}
+			if tv, ok := info.Types[call.Fun]; !ok || !tv.IsType() {
+				return e
+			}
+			e = call.Args[0]
+		}
+	}
+	chain := func(e ast.Expr) ([]string, bool) {
+		var names []string
+		for {
+			sel, ok := ast.Unparen(e).(*ast.SelectorExpr)
+			if !ok {
+				break
+			}
+			s := info.Selections[sel]
+			if s == nil || s.Kind() != types.FieldVal {
+				return nil, false
+			}
+			names = append(names, sel.Sel.Name)
+			e = sel.X
+		}
+		id, ok := ast.Unparen(e).(*ast.Ident)
+		if !ok || len(names) == 0 || !owner[info.ObjectOf(id)] {
+			return nil, false
+		}
+		return names, true
+	}
+	ast.Inspect(f.Decl.Body, func(n ast.Node) bool {
+		switch x := n.(type) {
+		case *ast.AssignStmt:
+			for i, l := range x.Lhs {
+				switch lx := ast.Unparen(l).(type) {
+				case *ast.Ident:
+					obj := info.ObjectOf(lx)
+					if obj == nil {
+						continue
+					}
+					writes[obj]++
+					if x.Tok == token.DEFINE && len(x.Lhs) == len(x.Rhs) && info.Defs[lx] != nil {
+						if _, ok := chain(strip(x.Rhs[i])); ok {
+							cand[obj] = strip(x.Rhs[i])
+						}
+					}
+				case *ast.SelectorExpr:
+					fieldWritten[lx.Sel.Name] = true
+				}
+			}
+		case *ast.IncDecStmt:
+			if id, ok := ast.Unparen(x.X).(*ast.Ident); ok {
+				if obj := info.ObjectOf(id); obj != nil {
+					writes[obj] += 2
+				}
+			}
+		case *ast.UnaryExpr:
+			if x.Op == token.AND {
+				if id, ok := ast.Unparen(x.X).(*ast.Ident); ok {
+					if obj := info.ObjectOf(id); obj != nil {
+						writes[obj] += 2
+					}
+				}
+			}
+		}
+		return true
+	})
+	for obj, rhs := range cand {
+		if writes[obj] != 1 {
+			continue
+		}
+		names, _ := chain(rhs)
+		bad := false
+		for _, n := range names {
+			if fieldWritten[n] {
+				bad = true
+			}
+		}
+		if !bad {
+			out[obj] = rhs
+		}
+	}
+	return out
+}
+
+// ExprStrAliased renders e like ExprStr with the field-caching locals of f
+// replaced by the fields they stand for.
+func ExprStrAliased(f *Func, e ast.Expr) string {
+	al := f.FieldAliases()
+	if len(al) == 0 {
+		return ExprStr(e)
+	}
+	info := f.Info()
+	c := &cloner{info: info}
+	c.rewrite = func(n ast.Node) ast.Node {
+		id, ok := n.(*ast.Ident)
+		if !ok {
+			return nil
+		}
+		if rhs, ok := al[info.Uses[id]]; ok {
+			return (&cloner{info: info}).node(rhs)
+		}
+		return nil
+	}
+	return ExprStr(c.node(e).(ast.Expr))
 }
